@@ -1,7 +1,8 @@
 import EdpVerif.Lemmas.Receiver
 import EdpVerif.Lemmas.ReceiverRecv
 import EdpVerif.Generated.Control
-import EdpVerif.Generated.Misc
+import EdpVerif.Generated.MiscC19
+import EdpVerif.Generated.MiscState
 /-!
 C19 — inbound routing is exact and the connection's receiver outlives bad input.
 
